@@ -88,3 +88,25 @@ func Registered() []string {
 	}
 	return SortedKeys(m)
 }
+
+// DropRanges proposes index ranges [lo,hi) of a list of length n to delete when
+// shrinking: halves and quarters for long lists (so that proposing candidates stays
+// linear), single elements only once the list is short.
+func DropRanges(n int) [][2]int {
+	var out [][2]int
+	if n > 16 {
+		h, q := n/2, n/4
+		out = append(out, [2]int{0, h}, [2]int{h, n}, [2]int{0, q}, [2]int{q, h}, [2]int{h, h + q}, [2]int{h + q, n})
+		if n > 64 {
+			e := n / 8
+			for i := 0; i < 8; i++ {
+				out = append(out, [2]int{i * e, (i + 1) * e})
+			}
+		}
+		return out
+	}
+	for i := 0; i < n; i++ {
+		out = append(out, [2]int{i, i + 1})
+	}
+	return out
+}
